@@ -143,6 +143,41 @@ def menu():
     M.append(('DUP-FIRST-WIRE', 'half'))
     M.append(('-w+', '3,0.05,0.05,0.05,0.06,0.05,0.05,.002'))       # a second, very short wire far from resonance
     M.append(('-w+', '2,0,0,2.5,3,0,2.5,.002'))                      # a wire crossing the first one of the dipole base
+    # diagnostics main() prints itself: non-numeric tags with the full parameter count, wrong helix arity, non-numeric
+    # near-field start / increment, more pulses than voltages, a sweep that ends at f <= 0, taper on a 1-segment wire,
+    # arcs / helices touching the plane in ways the constructors refuse, radials on ideal ground / on a single medium
+    M.append(('-w', 'x,4,0,0,0,0,0,1,.001'))
+    M.append(('-a+', 'x,4,1,0,90,.001'))
+    M.append(('-H+', 'x,8,1,0.5,.001,0.1,0.1'))
+    M.append(('-H+', '8,1,0.5,.001'))
+    M.append(('-H+', '8,1,0.5,.001,0.1,0.1,0.1,0.1,0.1,0.1'))
+    M.append(('-H+', '8,1,0.5,.001,0.1'))
+    M.append(('-H+', '8,-1,0.5,.001,0.1,0.2,0.05,0.3'))
+    M.append(('--near-field', 'a,1,1,1,1,1,1,1,1'))
+    M.append(('--near-field', '1,1,1,b,1,1,1,1,1'))
+    M.append(('--near-field', '1,1,1,1,1,1,c,1,1'))
+    M.append(('--excitation-pulse+', '2'))
+    M.append(('--excitation-voltage+', '2'))
+    M.append(('SWEEP-DOWN', '3'))
+    M.append(('SWEEP-DOWN', '200'))
+    for t in ('1', '2', '3'):
+        M.append(('TAPER-ONE-SEG', t))
+    M.append(('GROUND+', '-a=4,1,0,180,.001'))          # half circle standing on the plane with both ends
+    M.append(('GROUND+', '-a=4,1,-90,0,.001'))          # arc below the plane
+    M.append(('GROUND+', '-a=8,1,0,360,.001'))          # closed loop touching the plane... below it
+    M.append(('GROUND+', '-a=3,1,-60,60,.001'))
+    M.append(('GROUND+', '-H=8,1,0.5,.001,0.1,0.1'))    # helix starting on the plane
+    M.append(('GROUND+', '-w=3,1,1,0,2,2,0,.001'))      # wire lying in the plane
+    M.append(('GROUND+', '-w=3,1,1,1,2,2,-1,.001'))     # wire crossing the plane
+    M.append(('GROUND+', '-a=4,1,0,90,.001;--geo-rotate=1,90,0,0'))            # arc turned into the plane
+    M.append(('GROUND+', '-H=8,1,0.5,.001,0.1,0.1;--geo-rotate=1,0,90,0'))     # helix with a horizontal axis through the plane
+    M.append(('GROUND+', '-H=8,1,0.5,.001,0.1,0.1;--geo-translate=1,0,0,-0.5'))  # helix pushed down: an intermediate joint on the plane
+    M.append(('GROUND+', '-H=8,1,0.5,.001,0.1,0.1;--geo-translate=1,0,0,-1'))    # helix hanging from the plane
+    M.append(('GROUND+', '--medium=0,0,0;--medium=0,0,3'))
+    M.append(('GROUND+', '--radial-count=8'))
+    M.append(('REALGROUND+', '--radial-count=8'))
+    M.append(('REALGROUND+', '--boundary=circular'))
+    M.append(('NO-GEOMETRY', 'default'))
     M.append(('--trap-load+', '0,1e-6,1.1894e-9'))                     # loss-free trap (resonant near 4.6 MHz)
     M.append(('--bogus-option', '1'))
     return M
@@ -186,6 +221,39 @@ def apply_dev(argv, opt, val):
         if val == 'half':
             c = c[:3] + [repr((float(a) + float(b)) / 2) for a, b in zip(c[:3], c[3:])]
         return argv + ['-w', ','.join([n] + c + [r])]
+    if opt == 'SWEEP-DOWN':
+        return [a for a in argv if not a.startswith('--frequency-')] + ['--frequency-steps=' + val, '--frequency-increment=-5']
+    if opt == 'TAPER-ONE-SEG':
+        i = argv.index('-w')
+        v = argv[i + 1].split(',')
+        if len(v) < 8:
+            return argv
+        v[-8] = '1'
+        argv[i + 1] = ','.join(v)
+        return [a for a in argv if not a.startswith('--taper-wire')] + ['--taper-wire=%s,%s' % (v[0] if len(v) == 9 else '1', val)]
+    if opt in ('GROUND+', 'REALGROUND+'):
+        med = ['--medium=0,0,0'] if opt == 'GROUND+' else ['--medium=13,0.005,0']
+        argv = [a for a in argv if not a.startswith(('--medium', '--boundary', '--radial'))] + med
+        for ov in val.split(';'):
+            o, v = ov.split('=', 1)
+            if o == '--medium':
+                argv = [a for a in argv if not a.startswith('--medium')]
+            argv = argv + ([o + '=' + v] if o.startswith('--') else [o, v])
+        return argv
+    if opt == 'NO-GEOMETRY':
+        out, skip = [], False
+        for a in argv:
+            if skip:
+                skip = False
+                continue
+            if a in ('-w', '-a', '-H', '--wire', '--arc', '--helix'):
+                skip = True
+                continue
+            if a.startswith(('--wire=', '--arc=', '--helix=', '--taper-wire', '--geo-', '--attach-load', '--load', '--rlc', '--trap', '--laplace',
+                             '--skin', '--insulation', '--excitation')):
+                continue
+            out.append(a)
+        return out
     if opt.endswith('+'):
         o = opt[:-1]
         extra = ['--attach-load=%d,1' % (1 + sum(1 for a in argv if a.startswith(('--load', '--rlc-load', '--trap-load', '--laplace-load-a'))))] if 'load' in o else []
